@@ -120,6 +120,30 @@ func cellText(k model.Kind, c model.Cell, na string) string {
 	}
 }
 
+// textDenotes reports whether a CSV field denotes the cell's value (by value,
+// not by spelling: any text that parses back to the identical value is fine).
+func textDenotes(k model.Kind, c model.Cell, text string) bool {
+	switch k {
+	case model.Int:
+		v, err := strconv.Atoi(text)
+		return err == nil && v == c.I
+	case model.Float:
+		if math.IsNaN(c.F) {
+			return text == ""
+		}
+		v, err := strconv.ParseFloat(text, 64)
+		return err == nil && math.Float64bits(v) == math.Float64bits(c.F)
+	case model.Bool:
+		v, err := strconv.ParseBool(text)
+		return err == nil && v == c.B
+	default:
+		if c.Null {
+			return text == ""
+		}
+		return text == c.S
+	}
+}
+
 // checkObservers compares every way of observing qf with the typed views' ItemAt.
 func checkObservers(qf qframe.QFrame) *core.Failure {
 	o := model.Observe(qf)
@@ -221,8 +245,8 @@ func checkObservers(qf qframe.QFrame) *core.Failure {
 			if len(recs[r+1]) != len(o.Cols) {
 				return core.Failf("ToCSV row %d has %d fields", r, len(recs[r+1]))
 			}
-			if want := cellText(c.Kind, c.Cells[r], ""); recs[r+1][i] != want {
-				return core.Failf("ToCSV row %d column %s: %q, views say %q\n frame: %s", r, c.Name, recs[r+1][i], want, o)
+			if !textDenotes(c.Kind, c.Cells[r], recs[r+1][i]) {
+				return core.Failf("ToCSV row %d column %s: %q, views say %q\n frame: %s", r, c.Name, recs[r+1][i], cellText(c.Kind, c.Cells[r], ""), o)
 			}
 		}
 	}
